@@ -34,6 +34,24 @@ type ClearsignCase struct {
 
 const pgpPrefix = "-----BEGIN PGP "
 
+// armoredSignatureBytes decodes the signature armor of a clearsigned document with the armor
+// package itself (nil when there is none or it does not decode).
+func armoredSignatureBytes(doc []byte) []byte {
+	i := bytes.Index(doc, []byte("-----BEGIN PGP SIGNATURE-----"))
+	if i < 0 {
+		return nil
+	}
+	blk, err := armor.Decode(bytes.NewReader(doc[i:]))
+	if err != nil {
+		return nil
+	}
+	b, err := io.ReadAll(blk.Body)
+	if err != nil {
+		return nil
+	}
+	return b
+}
+
 func signDoc(text string, signer *openpgp.Entity) ([]byte, error) {
 	var buf bytes.Buffer
 	w, err := clearsign.Encode(&buf, signer.PrivateKey, pgpConfig())
@@ -109,7 +127,7 @@ func checkClearsignWith(c ClearsignCase, kr openpgp.EntityList, armored bool, kr
 			how += " (" + krNote + ")"
 		}
 		if rerr == nil && c.MustFail {
-			return errf("%s: a clearsigned document whose signature armor is damaged (fault %s: checksum line altered) was accepted, signer %s", how, c.Fault, fingerprint(signer))
+			return errf("%s: a clearsigned document whose signature armor is damaged (fault %s: the checksum line is altered, or bytes follow the signature inside the armor) was accepted, signer %s", how, c.Fault, fingerprint(signer))
 		}
 		if rerr != nil {
 			if c.MustSucceed {
@@ -164,7 +182,7 @@ func checkClearsignWith(c ClearsignCase, kr openpgp.EntityList, armored bool, kr
 
 var specC11 = Register(&Spec[ClearsignCase]{
 	Prop: "C11", Name: "clearsign",
-	Rule:  "fault enumeration over clearsigned documents: C07 documents (1..3 paragraphs, LF) signed with clearsign.Encode by an RSA entity from a per-process pool; keyring = signer only / signer among others / others only / empty for the unmutated document; the same keyring OBJECT changed in place (to other keys, to no keys) between two reads of the same bytes - the second read must fail; then with the signer in the keyring EVERY single-byte substitution (XOR 0x01, XOR 0x20, 'A'), EVERY single-byte deletion, EVERY single-byte insertion ('A', blank, newline), EVERY truncation length, splices of a foreign paragraph before the armor, inside the signed text, between text and signature, inside the signature armor and after it, replacement of the signature by that of another key or of another text, and removal of the signature block; a second complete clearsigned document appended (same signer, other signer, a replay of the first); the binary signature truncated at 8 lengths or with one byte flipped (every byte in the thorough tier, every 7th in quick) and armored afresh with a correct checksum, alone and under an altered text; each character of the armor's CRC-24 line replaced by other printable characters, also with an armor-END look-alike or a whole second signed document behind the damaged block (must fail: the signature is damaged, as gpgv says too). Oracle: reading (ParagraphReader.All and Decoder.Decode) ends in an error, or succeeds with Signer() == signing entity in the keyring and paragraphs == those of the signed text; success with a nil signer is allowed only when the input no longer starts with the armor header; the unmutated document with the signer in the keyring must be accepted. Non-trivial: every faulted case; distinct by (bytes, keyring).",
+	Rule:  "fault enumeration over clearsigned documents: C07 documents (1..3 paragraphs, LF) signed with clearsign.Encode by an RSA entity from a per-process pool; keyring = signer only / signer among others / others only / empty for the unmutated document; the same keyring OBJECT changed in place (to other keys, to no keys) between two reads of the same bytes - the second read must fail; then with the signer in the keyring EVERY single-byte substitution (XOR 0x01, XOR 0x20, 'A'), EVERY single-byte deletion, EVERY single-byte insertion ('A', blank, newline), EVERY truncation length, splices of a foreign paragraph before the armor, inside the signed text, between text and signature, inside the signature armor and after it, replacement of the signature by that of another key or of another text, and removal of the signature block; a second complete clearsigned document appended (same signer, other signer, a replay of the first); the binary signature truncated at 8 lengths or with one byte flipped (every byte in the thorough tier, every 7th in quick) and armored afresh with a correct checksum, alone and under an altered text; a good signature followed by junk, a NUL byte, a truncated or a damaged second signature inside a fresh armor; and for EVERY generated edit: if the armor then delivers the original signature plus further bytes, reading must fail; each character of the armor's CRC-24 line replaced by other printable characters, also with an armor-END look-alike or a whole second signed document behind the damaged block (must fail: the signature is damaged, as gpgv says too). Oracle: reading (ParagraphReader.All and Decoder.Decode) ends in an error, or succeeds with Signer() == signing entity in the keyring and paragraphs == those of the signed text; success with a nil signer is allowed only when the input no longer starts with the armor header; the unmutated document with the signer in the keyring must be accepted. Non-trivial: every faulted case; distinct by (bytes, keyring).",
 	Check: checkClearsign,
 })
 
@@ -190,9 +208,15 @@ func enumerateClearsignFaults(b SignBase, thorough bool, yield func(ClearsignCas
 		panic("HARNESS: " + err.Error())
 	}
 	base := ClearsignCase{Keyring: serializePublic(signer), SignerFP: fingerprint(signer), SignerInKR: true, Want: b.Doc.Want}
+	origSig := armoredSignatureBytes(signed)
 	mk := func(in []byte, fault string) ClearsignCase {
 		c := base
 		c.Input, c.Fault = in, fault
+		// whatever the edit was: if the armor now delivers the signature that was made PLUS further
+		// bytes, the signature block is damaged (it is not "a signature" any more) and reading has to fail
+		if got := armoredSignatureBytes(in); origSig != nil && len(got) > len(origSig) && bytes.HasPrefix(got, origSig) {
+			c.MustFail = true
+		}
 		return c
 	}
 	c := mk(signed, "none")
@@ -352,6 +376,13 @@ func enumerateClearsignFaults(b SignBase, thorough bool, yield func(ClearsignCas
 					w.Write(b)
 					w.Close()
 					return out.String() + "\n"
+				}
+				// a good signature followed by something else inside a fresh, well-formed armor
+				for name, tail := range map[string][]byte{"junk": []byte("JUNK"), "one-byte": {0x00}, "truncated-second-signature": bin[:len(bin)/2], "second-signature-flipped": func() []byte { f := append([]byte{}, bin...); f[len(f)-3] ^= 1; return f }()} {
+					if a := rearmor(append(append([]byte{}, bin...), tail...)); a != "" {
+						c := []byte(s[:sigStart] + a)
+						cases["rearmored:good-signature+"+name] = c
+					}
 				}
 				forgedText := strings.Replace(s[:sigStart], "\n\n", "\n\nEvil: yes\n", 1)
 				for _, k := range []int{0, 1, 2, 3, 10, len(bin) / 2, len(bin) - 10, len(bin) - 1} {
